@@ -11,6 +11,9 @@ Verdict(r) ==
   ELSE LET j == Judge(r.shell, r.slot, r.e) IN
        IF j = "ok" THEN (IF r.e = Emitted(r.shell, r.slot, r.s) THEN "ok" ELSE "model")
        ELSE IF r.shell = "fish" /\ r.slot = "pvhelp" /\ j = "stage2" THEN "C17-text-leaves-its-literal(model-only)#KF-C17-1"
+       \* the recorded finding is the escaping as written (no backslash doubling); any other emitted literal that leaks is new
+       ELSE IF r.shell = "zsh" /\ r.slot = "poshelp" /\ j = "stage2" /\ r.e = Emitted(r.shell, r.slot, r.s) /\ Contains(r.s, <<BS>>)
+            THEN "C17-text-leaves-its-literal(model-only)#KF-C17-2"
        ELSE "C17-text-leaves-its-literal(" \o j \o ")(model-only)"
 Init == l = 1
 Next ==
